@@ -47,16 +47,15 @@ structure Parsed where
   blocks : List BlockMsg       -- authority first
   deriving Repr
 
-/-- `Unmarshal`. The only algorithm of the published enum is Ed25519 = 0; any other value
-does not decode. -/
+/-- `Unmarshal`. (An algorithm tag other than Ed25519 = 0 is not looked at here: the
+chain walk rejects it, `verifyLink`.) -/
 def unmarshal (bs : Bytes) : Except Reject Parsed :=
   match decodeBiscuit bs with
   | none => .error .format
   | some e =>
-    if (e.authority :: e.blocks).any (fun sb => sb.nextKey.algorithm ≠ ed25519Alg) then .error .format
-    else match parseAll (e.authority :: e.blocks) with
-      | .error r => .error r
-      | .ok ms => .ok { envelope := e, blocks := ms }
+    match parseAll (e.authority :: e.blocks) with
+    | .error r => .error r
+    | .ok ms => .ok { envelope := e, blocks := ms }
 
 /-- `Unmarshal` then `AuthorizerFor` under one root key. -/
 def acceptBytes (S : SigScheme) (root : Bytes) (bs : Bytes) : Except Reject Parsed :=
